@@ -250,6 +250,21 @@ def check_undefined(repo, res, rule):
     _guard(not_after, res, rule, 'binding after the query position is invisible', SCOPE,
            'names_at must not return bindings located after the query position')
 
+    def ordered_insert():
+        f = m.flow('f', top)
+        a1 = m.name('x', (1, 0))
+        a2 = m.name('x', (2, 0))
+        m.add(f, a2)
+        m.add(f, a1)       # registered out of source order (a walrus inside the value of a later binding)
+        g = m.describe(m.lookup(m.names_at(f, (5, 0)), 'x'))
+        h = m.describe(m.lookup(m.names_at(f, (1, 5)), 'x'))
+        e = m.lookup(m.names_at(f, (0, 5)), 'x')
+        return g == frozenset([a2.oid]) and h == frozenset([a1.oid]) and e is None, \
+            'bindings registered out of order: after both -> %s (want the later), between -> %s (want the earlier), before -> %r' % (
+                sorted(g or []), sorted(h or []), e)
+    _guard(ordered_insert, res, rule, 'a region stays ordered by location whatever the registration order', SCOPE,
+           'insert_loc must keep the binding list sorted: names_at cuts it by bisect')
+
     def undefined_lt():
         # the marker sorts before every binding so that MultiName.name is defined
         u = m.new('UndefinedName', 'x')
@@ -257,7 +272,7 @@ def check_undefined(repo, res, rule):
             'UndefinedName.__lt__ is constant'
     _guard(undefined_lt, res, rule, 'undefined marker ordering is position independent', NAME,
            'UndefinedName ordering must not depend on layout')
-    res.count(rule + '_scenarios', 5, floor=5)
+    res.count(rule + '_scenarios', 6, floor=6)
 
 
 def check_scopes(repo, res, rule_entry, rule_methods):
